@@ -99,6 +99,7 @@ package m
 //@ func tryToGenerateAddress
 //@   invariant 2 ignored-so-far [C01]: forall j int :: 0 <= j && j <= rangeindex && j < len(ignorePrefixes) ==> !inPrefix(ignorePrefixes[j], generatedIP)
 //@   ensures outside-ignored [C01]: result0 != nil ==> (forall j int :: 0 <= j && j < len(ignorePrefixes) ==> !inPrefix(ignorePrefixes[j], result0.IP))
+//@   ensures passes-the-address-range-check [C01]: result0 != nil ==> inPrefix(BaseNetPrefix, result0.IP)
 //@   ensures outside-internal [C01]: result0 != nil ==> !inPrefix(InternalPrefix, result0.IP)
 //@   ensures in-acceptable [C01]: result0 != nil ==> (exists j int :: 0 <= j && j < len(acceptablePrefixes) && inPrefix(acceptablePrefixes[j], result0.IP))
 //@   ensures identity [C01]: result0 != nil ==> len(result0.PrivateKey) == 64 && len(result0.PublicKey) == 32 && result0.Type == "Ed25519" && result0.Hash == AddressDigestAlg
